@@ -69,6 +69,9 @@ def make_dict_unstructure_fn(
     origin = get_origin(cl)
     attrs = _adapted_fields(origin or cl)  # type: ignore
     req_keys = _required_keys(origin or cl)
+    # Another parametrization of the same generic class is a different type,
+    # not a circular reference.
+    generating = cl
 
     mapping = {}
     if is_generic(cl):
@@ -97,9 +100,9 @@ def make_dict_unstructure_fn(
     except AttributeError:
         working_set = set()
         already_generating.working_set = working_set
-    if cl in working_set:
+    if generating in working_set:
         raise RecursionError()
-    working_set.add(cl)
+    working_set.add(generating)
 
     try:
         # We want to short-circuit in certain cases and return the identity
@@ -221,7 +224,7 @@ def make_dict_unstructure_fn(
 
         eval(compile(script, fname, "exec"), globs)
     finally:
-        working_set.remove(cl)
+        working_set.remove(generating)
         if not working_set:
             del already_generating.working_set
 
